@@ -54,7 +54,8 @@ ASSUMPTIONS = [
     'the producer may keep valid low for any number of cycles (not only 0..2): the graph closes because a decoder waiting with '
     'valid = 0 does not change state',
     'CMDResponse: size = number of hex digits (class comment and code say nibbles; the Args line says bits); vin and size are held '
-    'from the start pulse to the end of the response; start_resp is pulsed only while the block is idle; a response has stopped '
+    'from the start pulse to the end of the response, except in the "live" shards where they change freely after the start pulse (the '
+    'class samples them: "the idea is to sample a value and size"); start_resp is pulsed only while the block is idle; a response has stopped '
     '(length / not_idle_after) if %d cycles with ready = 1 pass without a transfer' % RESP_STALL,
     'closed loop (thorough): 4 system clocks per UART bit; only the text handed to the decoder and the resulting set_v_in pulse are checked '
     '(the leading "=" of a response is not a well-formed command)',
@@ -76,7 +77,7 @@ BOUNDS = {
 }
 
 HEX = ref.HEX
-WIDTHS = {'wide': (12, 32, 12), 'narrow': (1, 2, 1), 'narrow2': (2, 4, 2)}
+WIDTHS = {'wide': (12, 32, 12), 'narrow': (1, 2, 1), 'narrow2': (2, 4, 2), 'wide40': (12, 40, 12)}
 LONG_COMMANDS = ['FEDCBA98!', '0000000A!', '123456789!', '7FFFFFFF!', 'I0123=', 'IFFF=', 'O00FFF?', 'O8A5?', 'K0010;', 'K100;']
 SIZES = [1, 2, 3, 4, 5, 6, 7, 8, 9, 12]       # 9 and 12: more digits than the 32-bit value has (leading zeros)
 VINS_Q = [0, 1, 0xA5, 0xFEDCBA98, 0xFFFFFFFF, 0x0F0F0F0F]
@@ -123,9 +124,14 @@ def shards(tier):
     # a few long numbers (up to 9 digits: one more than the 32-bit value wire holds), each followed by <= 1 small command
     for cmd in LONG_COMMANDS:
         out.append(_req('wide', '09F', 1, 2, first=cmd))
+    # a value wire of 40 bits: numbers of more than 8 digits arrive whole
+    for cmd in ('123456789!', 'FEDCBA9876!', '100000000!', '0FFFFFFFFFF!', 'I0123=', 'K100;'):
+        out.append(_req('wide40', '09F', 1, 2, first=cmd))
     for vin in (VINS_T if T else VINS_Q):
         for size in SIZES:
             out.append({'blk': 'resp', 'vin': vin, 'size': size, 'grid': 'T' if T else 'Q'})
+    for vin, size in ((0xA5, 2), (0xFEDCBA98, 8), (0x0F0F0F0F, 5)) + (((1, 1), (0x12345678, 7)) if T else ()):
+        out.append({'blk': 'resp', 'vin': vin, 'size': size, 'grid': 'T' if T else 'Q', 'live': 1})
     if T:
         for vin in VINS_Q:
             out.append({'blk': 'loop', 'vin': vin, 'sizes': [1, 2, 3, 8]})
@@ -380,6 +386,10 @@ def build_resp(d):
 def resp_choices(d, env):
     phase, k, pos, vin, size, stall = env
     if phase == 1:
+        if d.get('live'):
+            # the value and size wires move on while the response is going out: the response is the value sampled at the start
+            v2, s2 = vin ^ 0xFFFFFFFF, (size % 8) + 1
+            return [(0, 0, vin, size), (0, 1, vin, size), (0, 0, v2, s2), (0, 1, v2, s2), (0, 1, v2, size)]
         return [(0, 0, vin, size), (0, 1, vin, size)]
     out = [(0, 0, vin, size), (0, 1, vin, size)]
     if phase == 0:
